@@ -157,6 +157,34 @@ func (y *c04Sys) runTree(descs []c04Desc) (c04Result, *engine.Violation) {
 					return r, tagged(viol("refund-withdrawal-is-completable", "refund of a deposit sent by %s names the L1 recipient %q, which L1 can never pay", short(alice.String()), wds[n-1].To), "kind", "refund")
 				}
 			}
+		case "hook":
+			// a user withdrawal executed inside the deposit's own hook: the recipient's signed tx
+			// withdraws the deposited amount straight back to L1
+			acc := y.w2.AK.GetAccount(c2, alice)
+			wmsg := opchildtypes.NewMsgInitiateTokenWithdrawal(alice.String(), c04Rcpt(d.Rcpt), sdk.NewCoin(l2d, amt))
+			key := world.SecpKey("alice")
+			data := signHookTx(y.w2, []sdk.Msg{wmsg}, key, key.PubKey(), acc.GetAccountNumber(), acc.GetSequence(), c2.ChainID())
+			res := y.w1.Deliver(c1, ophosttypes.NewMsgInitiateTokenDeposit(alice.String(), 1, alice.String(), sdk.NewCoin(d.Denom, amt), data))
+			r.transitions++
+			if !res.OK() {
+				r.refusedAtEntry++
+				continue
+			}
+			l1seq++
+			res2 := y.w2.Deliver(c2, opchildtypes.NewMsgFinalizeTokenDeposit(world.Addr("executor").String(), alice.String(), alice.String(), sdk.NewCoin(l2d, amt), l1seq, uint64(c1.BlockHeight()), d.Denom, data))
+			r.transitions++
+			if !res2.OK() {
+				return r, viol("faithful-relay-is-accepted", "desc %d (%s): relay failed: %v", i, d, res2.Err)
+			}
+			supplyAfter := y.w2.BK.GetSupply(c2, l2d).Amount
+			before := len(wds)
+			if v := parse(res2.Events); v != nil {
+				return r, v
+			}
+			// L2 accepted the withdrawal iff the tokens are gone again; then it must have been announced
+			if bal := y.w2.BK.GetBalance(c2, alice, l2d).Amount; bal.IsZero() && len(wds) == before {
+				return r, tagged(viol("recorded-withdrawal-is-claimable", "desc %d (%s): the hook's withdrawal burnt the deposit (supply %s, balance 0) but no withdrawal was announced, so it can never be claimed on L1", i, d, supplyAfter), "kind", "hook")
+			}
 		case "user":
 			// establish the denom pair through a real 1-unit deposit, then give the user the holding
 			// (several deposits can add up to any amount) and back it on L1
@@ -225,6 +253,8 @@ func kindOf(from string) string {
 	return "user"
 }
 
+var _ = kindOf
+
 func c04Run(rc *engine.RunCtx) *engine.Result {
 	res := engine.NewResult()
 	known := rc.Known.Matcher(rc.Property)
@@ -239,11 +269,17 @@ func c04Run(rc *engine.RunCtx) *engine.Result {
 		}
 	}
 	for _, a := range []string{"1", "9223372036854775808", "18446744073709551615"} {
+		for _, rcp := range []string{"lower", "upper"} {
+			full = append(full, c04Desc{"hook", a, "uinit", rcp})
+		}
+	}
+	for _, a := range []string{"1", "9223372036854775808", "18446744073709551615"} {
 		for _, rcp := range []string{"lower", "upper", "fresh"} {
 			small = append(small, c04Desc{"user", a, "uinit", rcp})
 		}
 		small = append(small, c04Desc{"refund", a, "uinit", ""})
 	}
+	small = append(small, c04Desc{"hook", "1", "uinit", "lower"})
 	var trees [][]c04Desc
 	for _, d := range full {
 		trees = append(trees, []c04Desc{d})
@@ -320,7 +356,7 @@ func c04Run(rc *engine.RunCtx) *engine.Result {
 	res.Coverage["withdrawals_recorded"] = total.recorded
 	res.Coverage["withdrawals_claimed"] = total.claimed
 	res.Coverage["refused_at_entry_point"] = total.refusedAtEntry
-	res.Coverage["menu"] = map[string]any{"amounts": []string{"1", "2^63-1", "2^63", "2^64-1", "2^64", "2^64+1", "2^128"}, "denoms": []string{"uinit", "128-char denom", "ibc/<hash> with slash"}, "recipients": []string{"lower-case bech32", "upper-case bech32", "fresh account"}, "kinds": []string{"user withdrawal", "refund of a deposit with a malformed recipient"}, "exhaustive_tree_sizes": maxExh}
+	res.Coverage["menu"] = map[string]any{"amounts": []string{"1", "2^63-1", "2^63", "2^64-1", "2^64", "2^64+1", "2^128"}, "denoms": []string{"uinit", "128-char denom", "ibc/<hash> with slash"}, "recipients": []string{"lower-case bech32", "upper-case bech32", "fresh account"}, "kinds": []string{"user withdrawal", "refund of a deposit with a malformed recipient", "user withdrawal executed inside the deposit's own hook"}, "exhaustive_tree_sizes": maxExh}
 	res.Coverage["oracle"] = "every withdrawal event L2 emits for a positive amount and a valid L1 recipient: after proposing the tree built by the independent builder and finalizing it, the L1 claim succeeds and pays exactly the recorded amount; a recorded amount that does not fit the leaf format is a violation (the entry points must refuse what can never be completed)"
 	res.Assumptions = []string{"user holdings above what one deposit carries are produced by minting on L2 and funding the escrow on L1 (several deposits can add up to any amount)"}
 	res.Require(total.claimed > 100, "only %d claims succeeded", total.claimed)
